@@ -44,7 +44,7 @@ PROPS = {
     'C03': dict(title='Inbound UPDATEs reach the handler exactly once, in order, byte-exact', live=True, lean=['CoreBGP.Props.C03'],
         rule='live sessions with seeded random UPDATE/KEEPALIVE sequences (bodies 0..4077) cut into random TCP writes (1-byte writes, writes spanning several messages), handler recording arguments, handler veto at a random position; every trace reproduced by the L1 model (handler calls = sent bodies, in order) + aliasing monitor',
         assumptions=['"the delivered slice is not modified afterwards" is Go aliasing: monitored by re-comparing every delivered slice with a private copy at session end (partial clause)']),
-    'C04': dict(title='Outbound byte stream is whole well-formed messages; WriteUpdate contract', live=True, lean=['CoreBGP.Props.C04'],
+    'C04': dict(title='Outbound byte stream is whole well-formed messages; WriteUpdate contract', live=True, lean=['CoreBGP.Props.C04', 'CoreBGP.Props.C04L2', 'CoreBGP.Props.C04Tie'],
         rule='live sessions with 1..16 concurrent writer goroutines (tagged random bodies 0..4077), writes from inside OnEstablished and the handler, hold time 3 s so keepalives interleave, teardown by Cease / FIN / FSM error / Close at a random point, re-establishment, writes after OnClose; strict frame parser on every byte received + per-writer order / exactly-once / no-leak monitors',
         assumptions=['atomicity of one net.Conn.Write with respect to concurrent writes (Go netFD write lock) is assumed']),
     'C06': dict(title='Hold time negotiation, hold-timer expiry and keepalive cadence', live=True, lean=['CoreBGP.Props.C06', 'CoreBGP.Props.C02b'],
@@ -55,7 +55,7 @@ PROPS = {
     'C01': dict(title='One Established session per peer; well-formed plugin callback history', live=True, lean=['CoreBGP.Props.C01'],
         rule='union of the live families in which sessions come and go (collision grid + forced windows, state x message table, shutdown at every point, reconnection fault sequences): every trace must be a trace of the L2 transition system (state-set tracking) and pass the plugin-history monitor (prefix of (E+E-(H+H-)*C+C-)*, complete at Close/DeletePeer, GetCapabilities / OnOpenMessage counts)',
         assumptions=['plugin callbacks are atomic enter/exit pairs that always return']),
-    'C11': dict(title='Reconnection liveness and retry pacing after non-damping faults', live=True, lean=['CoreBGP.Props.C11'],
+    'C11': dict(title='Reconnection liveness and retry pacing after non-damping faults', live=True, lean=['CoreBGP.Props.C11', 'CoreBGP.Props.C11T'],
         rule='live fault sequences (refuse, close / reset / Cease at OpenSent / OpenConfirm / Established, seeded random sequences) followed by a well-behaved remote, idle-hold in {50,100,200} ms, passive and active peers, inbound session ending; pacing monitor on the exits from Idle and on dial timestamps, bound on time-to-Established',
         assumptions=['real-time pacing / liveness bounds are observed with slack, not proved (partial clause)']),
 }
